@@ -12,6 +12,20 @@ Local Open Scope N_scope.
    files in the same order, each with the same checksums in order and the same size *)
 Theorem C10_api_roundtrip : forall d, printable d -> di_from_bytes (di_as_bytes d) = d.
 Proof. exact from_as_bytes. Qed.
+(* "assembled through the API": inserting an entry makes it the one found under its name (under any spelling of an
+   equal path) and leaves every other lookup as it was; inserting well-formed entries keeps a Distinfo printable, so
+   whatever is built from the empty Distinfo by set_rcsid and insert round-trips *)
+Theorem C10_insert_lookup : forall d e p,
+  get_entry (class_list (di_insert d e) (classify (ename e))) p =
+  if path_eqb (ename e) p then Some e else get_entry (class_list d (classify (ename e))) p.
+Proof. exact insert_lookup. Qed.
+Theorem C10_insert_printable : forall d e, printable d ->
+  (classify (ename e) = Distfile -> ok_dist e) -> (classify (ename e) = Patchfile -> ok_patch e) -> printable (di_insert d e).
+Proof. exact insert_printable. Qed.
+Theorem C10_build_roundtrip : forall r es, ok_rcs r ->
+  Forall (fun e => (classify (ename e) = Distfile -> ok_dist e) /\ (classify (ename e) = Patchfile -> ok_patch e)) es ->
+  di_from_bytes (di_as_bytes (di_build r es)) = di_build r es.
+Proof. exact build_roundtrip. Qed.
 (* a file in canonical layout is reproduced byte for byte *)
 Theorem C10_canonical_roundtrip : forall t, (exists d, printable d /\ t = di_as_bytes d) ->
   di_as_bytes (di_from_bytes t) = t.
